@@ -1,2 +1,25 @@
 //! verification hooks for engine `strs` (cfg(xray_verif) only)
 #![allow(unreachable_pub, dead_code, unused_imports)]
+
+use crate::util::fenced_string::FencedString;
+
+pub fn push_ascii(s: &mut FencedString, other: &str) {
+    s.push_ascii(other)
+}
+
+pub fn add(a: &FencedString, b: &FencedString) -> FencedString {
+    a + b
+}
+
+pub fn bytes(s: &FencedString) -> usize {
+    s.bytes()
+}
+
+/// `apply_escapes`; the only error it can produce is `BadEscapeSequence`
+pub fn apply_escapes(s: &str) -> Result<String, String> {
+    crate::util::str_escapes::apply_escapes(s).map_err(|_| "BadEscapeSequence".to_string())
+}
+
+pub fn apply_brace_escape(s: &str) -> String {
+    crate::util::str_escapes::apply_brace_escape(s)
+}
